@@ -1,5 +1,6 @@
 From Coq Require Import Extraction ExtrOcamlBasic ExtrOcamlString.
-From Oras Require Import Base.Prelude Model.Paging.
+From Oras Require Import Base.Prelude Model.Paging Model.PagingUrl Model.PagingJson.
 Extraction Language OCaml.
 Extraction "xc15.ml" loop reg_page reg_serve parse_link is_filter_applied filter_referrers
-  eff_limit limit_size_rejects body_fits mk_request list_tags after tag_schema referrers_wrap mediaTypeImageIndex ping.
+  eff_limit limit_size_rejects body_fits mk_request list_tags after tag_schema referrers_wrap mediaTypeImageIndex ping
+  next_request first_query referrers_q0 set_query_params query_escape query_unescape parse_query_lenient resolve_ref loop_s scan consumed_of consumed_index collect_all.
